@@ -2,7 +2,7 @@ import PedVerif.Model.Frozen
 /-!
 Independent specification of C11, written from the property text.  It talks about a receiver `self`, the keyword
 arguments `kw`, and the instance `res` that a copy method returned; the class-description vocabulary (`fieldsOf`,
-`Obj.veq`, `Obj.ident`, `mutIds`) is shared with the model, the copy machinery is not.
+`Obj.seq`, `Obj.veq`, `Obj.ident`, `Obj.hashable`, `mutIds`) is shared with the model, the copy machinery is not.
 -/
 namespace PedVerif.Frozen
 
@@ -10,7 +10,8 @@ namespace PedVerif.Frozen
 inductive Expect where
   | replaced      -- named in `kw`: the copy holds the very object that was passed
   | sameObject    -- `copy_with`, not named: the copy holds the very object the original holds (shallow)
-  | deepEqual     -- `deep_copy_with`, not named: equal value, no mutable node shared with the original
+  | deepEqual     -- `deep_copy_with`, not named: the same value (`Obj.seq`), no mutable node — list / dict / set / instance of a
+                  -- plain class, at any depth, also inside tuples and frozensets — shared with the original
   | equalOnly     -- `init=False` field: `__init__` recomputes it; equal value
 deriving DecidableEq, Repr
 
@@ -29,8 +30,8 @@ def FieldMeets (deep : Bool) (self : Inst) (kw : List (Name × Obj)) (res : Inst
   | .replaced => res.fields.lookup f.name = kw.lookup f.name
   | .sameObject => res.fields.lookup f.name = self.fields.lookup f.name ∧ (self.fields.lookup f.name).isSome
   | .deepEqual => ∃ s r, self.fields.lookup f.name = some s ∧ res.fields.lookup f.name = some r ∧
-      s.veq r = true ∧ ∀ i ∈ r.mutIds, i ∉ self.mutIds
-  | .equalOnly => ∃ s r, self.fields.lookup f.name = some s ∧ res.fields.lookup f.name = some r ∧ s.veq r = true
+      s.seq r = true ∧ ∀ i ∈ r.mutIds, i ∉ self.mutIds
+  | .equalOnly => ∃ s r, self.fields.lookup f.name = some s ∧ res.fields.lookup f.name = some r ∧ s.seq r = true
 
 /-- **copy contract**: same class, every field as demanded -/
 def CopyMeets (deep : Bool) (self : Inst) (kw : List (Name × Obj)) (res : Inst) : Prop :=
@@ -42,8 +43,8 @@ def specTuple (i : Inst) : List Obj := (cmpFields i.cls).filterMap (fun f => i.f
 /-- equality is that of (class, tuple of fields) -/
 def specEq (a b : Inst) : Bool := headCid a.cls == headCid b.cls && veqL (specTuple a) (specTuple b)
 
-/-- hashable iff the field tuple is (no mutable node inside); the hash is then the tuple's -/
-def specHashable (a : Inst) : Bool := (mutIdsL (specTuple a)).isEmpty
+/-- hashable iff the field tuple is (no list / dict / set directly or inside tuples); the hash is then the tuple's -/
+def specHashable (a : Inst) : Bool := hashableL (specTuple a)
 
 /-- the `order` argument written at the decorator of the instance's (nearest decorated) class -/
 def declaredOrder (c : Cls) : Bool :=
